@@ -334,11 +334,15 @@ TEXT["C26"] = {
              "same with Register, Publish at QoS 0-2 on registered names and Unsubscribe, ending with the registrations of client "
              "and gateway and the subscriptions of client and broker equal to the program's; "
              "C26_message_on_a_new_topic_is_registered_and_delivered - one broker message on a name without topic ID is registered "
-             "and delivered; C26_refuted - two broker messages in flight on one not-yet-registered topic: only "
+             "and delivered; C26_sleep_cycle_delivers_every_message_once / C26_repeated_sleep_cycles - for every sleep duration of at "
+             "least a second, any list of broker messages QoS 0 on subscribed short topics arriving during the sleep and any "
+             "number of further cycles: Sleep sends DISCONNECT(duration), nothing reaches the client while it sleeps, at exactly "
+             "now + duration the PINGREQ with the client ID is sent, every message reaches its handler exactly once in order, "
+             "Sleep returns nil once (exact traces); C26_refuted - two broker messages in flight on one not-yet-registered topic: only "
              "one reaches the handler (recorded finding, witness on the real code in every run). The other API calls, sleep "
-             "cycles and handler delivery are NOT proved: the monitor clauses (26,1)-(26,4) check them on the real client + real "
+             "cycles with QoS 1/2 messages or over a lossy link and handler delivery on wildcard / predefined topics are NOT proved: the monitor clauses (26,1)-(26,4) check them on the real client + real "
              "gateway against the composed model on generated programs incl. bursts in flight.",
-    "note": COMMON_NOTE + " Partial: the theorems cover Connect / Ping / Register / Publish QoS 0-2 on short and registered names / Subscribe and Unsubscribe on short names / broker messages QoS 0-1 on them / Disconnect programs (no wildcards, no predefined topics, no sleep, no time passing); everything else of the property is tested against the composed model, not proved. The broker is a specification broker (MQTT 3.1.1 routing), not mosquitto.",
+    "note": COMMON_NOTE + " Partial: the theorems cover Connect / Ping / Register / Publish QoS 0-2 on short and registered names / Subscribe and Unsubscribe on short names / broker messages QoS 0-1 on them / Disconnect programs (no wildcards, no predefined topics, no time passing) and sleep cycles with QoS 0 broker messages on short topics; everything else of the property is tested against the composed model, not proved. The broker is a specification broker (MQTT 3.1.1 routing), not mosquitto.",
     "technique": "Coq theorems about the composed client+gateway+broker model for a class of API programs, a refutation witness, and end-to-end differential execution of the real client and gateway with a monitor",
 }
 
